@@ -156,7 +156,28 @@ pub fn run(ctx: &mut Ctx, replay: Option<&str>) {
     for f in &flows {
         ctx.evaluations += 1;
         describe_flow(ctx, f);
-        let run = run_flow(ctx, f);
+        let mut run = run_flow(ctx, f);
+        // every third flow presents from a holder instance that has already produced another presentation (select everything,
+        // no key binding): a holder is reusable (C11), so the flow's own presentation must be what a fresh holder produces
+        if ctx.evaluations % 3 == 0 {
+            if let Some(s) = run.issued().cloned() {
+                let warmup = PresentArgs::plain(select_all(&f.issue.claims).as_object().cloned().unwrap_or_default());
+                let mut h = holder_session(&s, f.issue.fmt, &[warmup, f.present_args()]);
+                ctx.impl_calls += 1;
+                if h.calls.len() == 2 {
+                    h.calls.remove(0);
+                    ctx.count("holder.reused_instance");
+                    run.hold = Some(h);
+                    run.ver = None;
+                    if let Some(p) = run.presentation().cloned() {
+                        let va = f.verify_args(&p);
+                        let vr = verify(&va);
+                        ctx.impl_calls += 1;
+                        run.ver = Some((va, vr));
+                    }
+                }
+            }
+        }
         ids.push(push_flow_requests(&mut reqs, f, &run));
         runs.push(run);
     }
